@@ -395,6 +395,7 @@ def _evaluate_quick(case):
         return discard('excluded_known_finding', ['kind:quick'])
     if tc.TRANSIENT_RETRIES['count'] != retries0:
         c.label('numba_transient_retry')
+    tc.check_not_mutated(c, 'quick_tidal_dissipation')
     loves = res['love_number_by_orderl']
     nontrivial = False
     for l in range(2, su.l_max + 1):
